@@ -6,21 +6,7 @@ compares keys. This is what "`hash(str(depth_offsets))` is used only as a dictio
 -/
 namespace VelaVerif.Caches
 
-def Atom.mapLit (f : Nat → Nat) : Atom → Atom
-  | .lit n => .lit (f n)
-  | a => a
-
-def mapKey (f : Nat → Nat) (k : PKey) : PKey := k.map (Atom.mapLit f)
-
 def mapTKey (f : Nat → Nat) (tk : TKey) : TKey := ⟨tk.scope, mapKey f tk.key⟩
-
-def Prog.mapLit {α : Type} (f : Nat → Nat) : Prog α → Prog α
-  | .ret a => .ret a
-  | .memo s k v cont => .memo s (mapKey f k) v (fun v' => (cont v').mapLit f)
-  | .assign k a next => .assign (mapKey f k) a (next.mapLit f)
-  | .addrOf k cont => .addrOf (mapKey f k) (fun r => (cont r).mapLit f)
-  | .log row next => .log row (next.mapLit f)
-  | .dump cont => .dump (fun rows => (cont rows).mapLit f)
 
 def mapState (f : Nat → Nat) (st : State) : State :=
   { st with memo := st.memo.map (fun e => ((e.1.1, mapTKey f e.1.2), e.2)),
